@@ -99,3 +99,9 @@ claim("C04", "async-aware ordering rules on the write task (await points, `?` ed
       "removal happen only in handle_io_complete, called from the one completion site; plus the recovery tables (highest sequence wins, regression "
       "stops the block, counter restarts strictly above everything, damaged index ends the scan, recover-mode table) and the reclaim order. "
       "Crash points and torn writes are not enumerated; durability of the device is outside the code.", "DESIGN.md §4 C04")
+claim("C14", "queue-end tables per algorithm and operation, comparison decision tables, enum/boolean arm tables, sibling pairing of pool-growth sites",
+      "Decides for FIFO, LRU, S3-FIFO, SIEVE and w-TinyLFU which end of which intrusive list each operation uses and the comparisons the "
+      "published rules fix: LRU hint routing, low-priority-first, never the pin list, pool overflow exactly when over the share and re-run at "
+      "every growth site; S3-FIFO ghost routing, small-first when over share, promote at freq >= threshold else evict + ghost, main re-insertion "
+      "while freq > 0, saturation; SIEVE visited-bit table and hand := successor; w-TinyLFU window overflow, head-to-head sketch comparison "
+      "(window evicted only when strictly colder) and the access table. The emergent victim sequence is not decided.", "DESIGN.md §4 C14")
